@@ -669,4 +669,214 @@ Proof.
       * pose proof (s2c_snoc _ _ _ _ _ (SReply (l ++ [LF])) Hs2c) as SN. cbn [enc_s] in SN. rewrite removelast_snoc in SN. exact SN.
 Qed.
 
+
+
+Lemma serve_keeps s : a_replies (LoopSpec.serve s) = a_replies s /\ a_delivered (LoopSpec.serve s) = a_delivered s /\
+  a_pt (LoopSpec.serve s) = a_pt s.
+Proof.
+  unfold LoopSpec.serve. destruct (a_c2s s); [auto|].
+  destruct (a_idle s); [destruct (beq _ _); cbn; auto|].
+  destruct (beq _ idle_line); [destruct (a_pending s); cbn; auto|].
+  destruct (beq _ noidle_line); cbn; auto.
+Qed.
+
+(* the requests a schedule issues *)
+Definition issued_in (sch : list label) : list request :=
+  flat_map (fun l => match l with LIssue q => [q] | _ => [] end) sch.
+
+Lemma issued_in_app a c : issued_in (a ++ c) = issued_in a ++ issued_in c.
+Proof. unfold issued_in. apply flat_map_app. Qed.
+
+Lemma issued_in_client sch : Forall client_label sch -> issued_in sch = [].
+Proof.
+  induction 1 as [|l sch H _ IH]; [reflexivity|]. cbn. fold (issued_in sch). rewrite IH.
+  destruct H as [H|[H|H]]; subst l; reflexivity.
+Qed.
+
+Definition label_post (s : asys) (x' : xsys) (og : option seg) (iq : list request) : Prop :=
+  exists sch nr ne, Forall wf_label sch /\ issued_in sch = iq /\ Rel x' (fold_left astep sch s) /\ Inv (fold_left astep sch s) /\
+    a_replies (fold_left astep sch s) = a_replies s ++ nr /\
+    a_delivered (fold_left astep sch s) = a_delivered s ++ ne /\
+    match og with Some g => gext seg0 g nr ne | None => nr = [] /\ ne = [] end.
+
+Lemma label_post_refl s x : Rel x s -> Inv s -> label_post s x None [].
+Proof.
+  intros HR HI. exists [], [], []. cbn [fold_left]. rewrite !app_nil_r.
+  split; [constructor|]. split; [reflexivity|]. split; [exact HR|]. split; [exact HI|]. auto.
+Qed.
+
+Lemma serve_sim : forall fuel all x s, Rel x s -> Inv s -> label_post s (DriverLoop.serve fuel all x) None [].
+Proof.
+  induction fuel as [|f IH]; intros all x s HR HI; cbn [DriverLoop.serve].
+  - apply label_post_refl; assumption.
+  - destruct (a_c2s s) as [|u rest] eqn:EC.
+    + rewrite (r_c2s _ _ _ HR), EC. cbn [concat take_line]. apply label_post_refl; assumption.
+    + destruct (serve_line x s u rest HR EC) as [l [TL HR1]]. rewrite TL.
+      destruct (sline (x_cf x) (x_srv x) l) as [st out]. cbn [fst snd] in HR1.
+      assert (HI1 : Inv (astep s LServe)) by (apply inv_step; [exact I|exact HI]).
+      change (LoopSpec.serve s) with (astep s LServe) in HR1.
+      assert (ONE : label_post s (set_net x st (concat rest) (x_s2c x ++ out)) None []).
+      { exists [LServe], [], []. cbn [fold_left]. rewrite !app_nil_r.
+        split; [constructor; [exact I|constructor]|]. split; [reflexivity|]. split; [exact HR1|]. split; [exact HI1|].
+        change (astep s LServe) with (LoopSpec.serve s).
+        destruct (serve_keeps s) as [K1 [K2 _]]. auto. }
+      destruct all; [|exact ONE].
+      destruct (IH true _ _ HR1 HI1) as [sch [nr [ne [WF [IQ [HR2 [HI2 [ER [ED [N1 N2]]]]]]]]]]. subst nr ne.
+      exists (LServe :: sch), [], []. cbn [fold_left]. rewrite !app_nil_r in *.
+      split; [constructor; [exact I|exact WF]|]. split; [exact IQ|]. split; [exact HR2|]. split; [exact HI2|].
+      rewrite ER, ED. change (astep s LServe) with (LoopSpec.serve s).
+      destruct (serve_keeps s) as [K1 [K2 _]]. auto.
+Qed.
+
+Lemma notify_sim x s n : Rel x s -> Inv s -> wf_text n = true -> label_post s (fst (sem x (GNotify n))) None [].
+Proof.
+  intros HR HI W. pose proof HR as HR'. destr_rel HR'.
+  assert (HI1 : Inv (astep s (LNotify n))) by (apply inv_step; [exact I|exact HI]).
+  exists [LNotify n], [], []. cbn [fold_left]. rewrite !app_nil_r.
+  split; [constructor; [exact I|constructor]|]. split; [reflexivity|]. split; [|split; [exact HI1|]].
+  - unfold sem, snotify, LoopSpec.astep. rewrite Hidle. destruct (a_idle s) eqn:EI.
+    + unfold flush_changes, flush. cbn [fst snd s_idle s_pending s_list s_violated s_reported]. xsimp.
+      constructor; xsimp; try assumption; try reflexivity.
+      * constructor.
+      * rewrite Hreported, Hpending. reflexivity.
+      * apply forall_snoc; [assumption|]. cbn [wf_s]. apply forall_snoc; assumption.
+      * rewrite Hpending. apply (s2c_snoc _ _ _ _ _ (SIdle (a_pending s ++ [n]))). assumption.
+    + cbn [fst snd]. constructor; xsimp; try assumption; try reflexivity; try (rewrite Hidle; exact EI).
+      * rewrite Hpending. reflexivity.
+      * apply forall_snoc; assumption.
+      * apply s2c_nil_out; assumption.
+  - unfold LoopSpec.astep. destruct (a_idle s); cbn; auto.
+Qed.
+
+Lemma fold_left_app_step sch pre s : fold_left astep sch (fold_left astep pre s) = fold_left astep (pre ++ sch) s.
+Proof. rewrite fold_left_app. reflexivity. Qed.
+
+Lemma run_op_after x1 s1 s pre : Rel x1 s1 -> Inv s1 -> s1 = fold_left astep pre s -> Forall wf_label pre ->
+  a_replies s1 = a_replies s -> a_delivered s1 = a_delivered s ->
+  label_post s (fst (run_op x1 seg0)) (snd (run_op x1 seg0)) (issued_in pre).
+Proof.
+  intros HR HI ES WP ER ED.
+  assert (NB : (nu s1 < 4000)%nat) by (pose proof (nu_bound s1 HI); lia).
+  destruct (settle_sim 4000 x1 seg0 s1 HR HI NB) as [sch [nr [ne [CS [HR' [HI' [GE [ER' ED']]]]]]]].
+  unfold run_op. destruct (settle 4000 x1 seg0) as [x2 g2]. cbn [fst snd] in *.
+  exists (pre ++ sch), nr, ne. rewrite <- fold_left_app_step, <- ES.
+  split. { apply Forall_app. split; [exact WP|]. eapply Forall_impl; [|exact CS]. apply client_label_wf. }
+  split. { rewrite issued_in_app, (issued_in_client sch CS). apply app_nil_r. }
+  split; [exact HR'|]. split; [exact HI'|]. rewrite ER', ED', ER, ED. auto.
+Qed.
+
+Lemma tick_sim x s ms : Rel x s -> Inv s ->
+  label_post s (fst (sem x (GTick ms))) (snd (sem x (GTick ms))) [].
+Proof.
+  intros HR HI. cbn [sem]. apply (run_op_after _ s s []); [|exact HI|reflexivity|constructor|reflexivity|reflexivity].
+  destr_rel HR; constructor; xsimp; assumption.
+Qed.
+
+Lemma deliver_sim x s k : Rel x s -> Inv s ->
+  label_post s (fst (sem x (GDeliver k))) (snd (sem x (GDeliver k))) [].
+Proof.
+  intros HR HI. cbn [sem]. rewrite (r_eof _ _ _ HR).
+  set (n := if k =? 0 then length (x_s2c x) else N.to_nat k).
+  destruct (firstn n (x_s2c x)) as [|c chunk] eqn:EF.
+  - cbn [fst snd]. apply label_post_refl; assumption.
+  - apply (run_op_after _ s s []); [|exact HI|reflexivity|constructor|reflexivity|reflexivity].
+    destr_rel HR; constructor; xsimp; try assumption.
+    destruct Hs2c as [done [P E]]. exists done. split; [exact P|].
+    rewrite <- E, <- EF, <- !app_assoc. rewrite firstn_skipn. reflexivity.
+Qed.
+
+Lemma echo_wf_req id l : echo_line cf l = true -> wf_req (mkReq id (l ++ [LF])).
+Proof.
+  intros E. destruct (echo_line_parts l E) as [_ [B1 [B2 _]]]. unfold wf_req. cbn [q_bytes].
+  split; intros H; apply app_inj_tail in H; destruct H as [H _]; subst l; rewrite beq_refl in *; discriminate.
+Qed.
+
+Lemma issue_sim x s id l : Rel x s -> Inv s -> echo_line cf l = true ->
+  label_post s (fst (sem x (GIssue id l))) (snd (sem x (GIssue id l))) [mkReq id (l ++ [LF])].
+Proof.
+  intros HR HI E. cbn [sem]. unfold issue_line, loop_alive.
+  rewrite (r_client _ _ _ HR), (r_handle _ _ _ HR), (r_spawned _ _ _ HR), (r_pt _ _ _ HR). cbn [andb negb].
+  assert (NE : match a_pt s with PExited => false | _ => true end = true).
+  { destruct HI as [SH _]. unfold shape in SH. destruct (a_pt s); try reflexivity. contradiction. }
+  rewrite NE. set (q := mkReq id (l ++ [LF])).
+  assert (WQ : wf_req q) by (apply echo_wf_req; exact E).
+  apply (run_op_after _ (astep s (LIssue q)) s [LIssue q]);
+    [|apply inv_step; [exact WQ|exact HI]|reflexivity|constructor; [exact WQ|constructor]|reflexivity|reflexivity].
+  destr_rel HR. cbn [LoopSpec.astep]. constructor; xsimp; try assumption; try reflexivity.
+  - rewrite Hqueue. reflexivity.
+  - rewrite Hcallers. unfold callers_for. destruct (a_pt s); cbn [held app map]; rewrite ?map_app; reflexivity.
+  - rewrite app_assoc. apply forall_snoc; [assumption|]. exists l. auto.
+Qed.
+
+Definition issued_of (gl : glabel) : list request :=
+  match gl with GIssue id l => [mkReq id (l ++ [LF])] | _ => [] end.
+
+Lemma sem_sim x s gl : Rel x s -> Inv s -> good cf gl = true ->
+  label_post s (fst (sem x gl)) (snd (sem x gl)) (issued_of gl).
+Proof.
+  intros HR HI G. destruct gl as [id l|n|all|k|ms]; cbn [good] in G.
+  - apply issue_sim; assumption.
+  - pose proof (notify_sim x s n HR HI G) as NS.
+    assert (EN : snd (sem x (GNotify n)) = None) by (unfold sem; destruct (snotify _ _); reflexivity).
+    rewrite EN. exact NS.
+  - cbn [sem fst snd]. apply serve_sim; assumption.
+  - apply deliver_sim; assumption.
+  - apply tick_sim; assumption.
+Qed.
+
+(* ---------- whole runs ---------- *)
+
+Definition run_rel (s : asys) (gls : list glabel) (x' : xsys) (segs : list seg) : Prop :=
+  exists sch nr ne, Forall wf_label sch /\ issued_in sch = flat_map issued_of gls /\
+    Rel x' (fold_left astep sch s) /\ Inv (fold_left astep sch s) /\
+    a_replies (fold_left astep sch s) = a_replies s ++ nr /\
+    a_delivered (fold_left astep sch s) = a_delivered s ++ ne /\
+    flat_map g_res segs = map res_text nr /\ flat_map g_ev segs = map ev_text ne /\
+    Forall (fun g => g_panic g = false) segs.
+
+Lemma xrun_sim : forall labs gls x s,
+  Forall2 (fun lab gl => classify lab = Some gl) labs gls -> Forall (fun gl => good cf gl = true) gls ->
+  Rel x s -> Inv s -> run_rel s gls (fst (xrun x labs)) (snd (xrun x labs)).
+Proof.
+  induction labs as [|lab labs IH]; intros gls x s F2 FG HR HI.
+  - inversion F2; subst gls. cbn [xrun fst snd]. exists [], [], []. cbn [fold_left flat_map map]. rewrite !app_nil_r.
+    split; [constructor|]. split; [reflexivity|]. split; [exact HR|]. split; [exact HI|]. repeat split; auto.
+  - inversion F2 as [|lab' gl labs' gls' CL F2' E1 E2]. subst gls. clear F2.
+    pose proof (Forall_inv FG) as G. pose proof (Forall_inv_tail FG) as FG'. cbn beta in G.
+    destruct (classify_sem x lab gl CL) as [EX EG].
+    pose proof (sem_sim x s gl HR HI G) as LP. rewrite <- EX, <- EG in LP.
+    cbn [xrun]. destruct (apply_label_g x lab) as [[op x1] og]. cbn [fst snd] in LP.
+    destruct LP as [sch [nr [ne [WF [IQ [HR1 [HI1 [ER [ED GE]]]]]]]]].
+    destruct (IH gls' x1 _ F2' FG' HR1 HI1) as [sch2 [nr2 [ne2 [WF2 [IQ2 [HR2 [HI2 [ER2 [ED2 [RS2 [EV2 PN2]]]]]]]]]]].
+    assert (IQA : issued_in (sch ++ sch2) = flat_map issued_of (gl :: gls')) by (rewrite issued_in_app, IQ, IQ2; reflexivity).
+    rewrite fold_left_app_step in HR2, HI2, ER2, ED2.
+    destruct og as [g|].
+    + destruct (xrun x1 labs) as [xf gs]. cbn [fst snd] in *.
+      destruct GE as [GR [GV GP]]. cbn [seg0 g_res g_ev g_panic app] in GR, GV, GP.
+      exists (sch ++ sch2), (nr ++ nr2), (ne ++ ne2).
+      split; [apply Forall_app; split; assumption|]. split; [exact IQA|]. split; [exact HR2|]. split; [exact HI2|].
+      rewrite ER2, ED2, ER, ED, <- !app_assoc. split; [reflexivity|]. split; [reflexivity|].
+      cbn [flat_map]. rewrite !map_app, GR, GV, RS2, EV2.
+      split; [reflexivity|]. split; [reflexivity|]. constructor; assumption.
+    + destruct GE as [N1 N2]. subst nr ne. rewrite !app_nil_r in *.
+      exists (sch ++ sch2), nr2, ne2.
+      split; [apply Forall_app; split; assumption|]. split; [exact IQA|]. split; [exact HR2|]. split; [exact HI2|].
+      rewrite ER2, ED2, ER, ED. auto.
+Qed.
+
+Lemma rel_init : Rel (xinit cf) a0.
+Proof.
+  assert (E : xinit cf = mkX HDone None true false PIdle true [] Initial [] false false false [] [] true 0 false cf
+                             s0 idle_line [] false [] false []) by (vm_compute; reflexivity).
+  rewrite E. constructor; cbn; try reflexivity; try constructor.
+  - left. reflexivity.
+  - constructor.
+  - exists []. split; [intro z; reflexivity|reflexivity].
+Qed.
+
+Theorem exec_refines labs gls :
+  Forall2 (fun lab gl => classify lab = Some gl) labs gls -> Forall (fun gl => good cf gl = true) gls ->
+  run_rel a0 gls (fst (xrun (xinit cf) labs)) (snd (xrun (xinit cf) labs)).
+Proof. intros F2 FG. apply (xrun_sim labs gls); [exact F2|exact FG|exact rel_init|apply inv0]. Qed.
+
 End Sim.
